@@ -191,6 +191,12 @@ def parseItem (j : Json) : R Spec.Item := do
 def jIo (names : List Bytes) (o : Outcome (List Nat)) : Json :=
   jOutcome (fun vs => jList (fun nv => Json.arr #[jBytes nv.1, jNat nv.2]) (names.zip vs)) o
 
+/-- the promised exception for an unopenable directory / file, or `null` when nothing is promised -/
+def jErrSpec (alive zombie : Bool) (e : FileErr) : Json :=
+  match Spec.expectedOnError alive zombie e with
+  | some x => jObj [("kind", "exc"), ("exc", Json.str (excName x))]
+  | none => Json.null
+
 def wfAll (fs : FS) (fds : List Spec.Fd) : Bool := fds.all fun d => decide (Spec.WFFd fs d)
 
 def handle (_ : Unit) (j : Json) : R (Unit × Json) := do
@@ -226,7 +232,12 @@ def handle (_ : Unit) (j : Json) : R (Unit × Json) := do
     let p : Proc := ⟨dir, alive, zombie⟩
     let model := jObj [("open_files", jOutcome (jList jFile) (openFiles cfg fs p)),
                        ("num_fds", jOutcome jNat (numFds cfg p))]
-    return ((), jObj [("model", model)])
+    let spec : Json := match dir with
+      | .err e => (match Spec.expectedOnError alive zombie e with
+        | some _ => jObj [("open_files", jErrSpec alive zombie e), ("num_fds", jErrSpec alive zombie e)]
+        | none => Json.null)
+      | .ok _ => Json.null
+    return ((), jObj [("model", model), ("spec", spec)])
   else if op == "io_items" then do
     let items ← listF parseItem j "items"
     let content := Spec.renderItems items
@@ -241,7 +252,10 @@ def handle (_ : Unit) (j : Json) : R (Unit × Json) := do
     let alive ← boolF j "alive"
     let zombie ← optBool j "zombie"
     let file ← field j "file" >>= parseRes parseFileErr
-    return ((), jObj [("model", jIo cfg.pioFields (ioCounters cfg alive file zombie))])
+    let spec : Json := match file with
+      | .err e => jErrSpec alive zombie e
+      | .ok _ => Json.null
+    return ((), jObj [("model", jIo cfg.pioFields (ioCounters cfg alive file zombie)), ("spec", spec)])
   else .error s!"unknown op {op}"
 
 def main : IO Unit := Proto.run () (total handle)
